@@ -31,13 +31,14 @@ ReqKinds == {"ok", "no", "none", "defer"}
 Msg(t, c, x, k) == [t |-> t, ch |-> c, x |-> x, k |-> k]
 NewChan(st, org, rid, nopen) ==
     [st |-> st, org |-> org, rid |-> rid, lc |-> FALSE, rc |-> FALSE,
+     closing |-> FALSE,  \* loseConnection() was called (remembered even when the call raised)
      dq |-> <<>>,        \* numbers of the pending want-reply Deferreds of requests WE sent on this channel (FIFO)
      pend |-> <<>>,      \* want_reply flags of received requests whose handler returned an unfired Deferred
      nopen |-> nopen, nfail |-> 0, nclosed |-> 0,   \* calls of channelOpen / openFailed / closed
      nsc |-> 0, nrc |-> 0, bystop |-> FALSE,         \* CLOSE sent / received; closed by serviceStopped
      nwant |-> 0, nrep |-> 0, nlost |-> 0]           \* want_reply requests received / replies sent / replies never sent
 
-Exists(s, c) == c \in 0..(Len(ch[s]) - 1)
+Exists(s, c) == c >= 0 /\ c < Len(ch[s])
 C(s, c) == ch[s][c + 1]
 InChannels(s, c) == Exists(s, c) /\ C(s, c).st \in {"opening", "open"}     \* c in conn.channels
 Mapped(s, c) == Exists(s, c) /\ C(s, c).st = "open"                        \* c in localToRemoteChannel
@@ -202,15 +203,26 @@ Eof(s, c) ==
        /\ last' = CallLast("eof", s, c, out, <<>>, IF NoRemote(s, c) THEN "KeyError" ELSE "")
     /\ UNCHANGED <<cfg, ch, stopped, oorder, dfr>>
 
-(* channel.write(one byte); the byte is a running number so that the receiver's log shows order and loss *)
+(* channel.write(one byte); the byte is a running number so that the receiver's log shows order and loss.
+   ODDITY: loseConnection() on a channel that is still opening raises KeyError but leaves channel.closing set, so
+   the first write() after the confirmation sends its data and then CLOSE by itself. *)
 Write(s, c) ==
     /\ Exists(s, c) /\ C(s, c).st \in {"open", "closed"}     \* harness discipline: only after channelOpen()
     /\ LET r == C(s, c)  act == r.st = "open" /\ ~r.lc
-           out == IF act THEN <<Msg("DATA", r.rid, cnt.wr + 1, "")>> ELSE <<>> IN
+           cl == act /\ r.closing
+           out == IF act THEN <<Msg("DATA", r.rid, cnt.wr + 1, "")>> \o (IF cl THEN <<Msg("CLOSE", r.rid, 0, "")>> ELSE <<>>) ELSE <<>>
+           r1 == [r EXCEPT !.lc = TRUE, !.nsc = @ + 1] IN
        /\ q' = Send(s, out)
        /\ cnt' = IF act THEN [cnt EXCEPT !.wr = @ + 1] ELSE cnt
-       /\ last' = CallLast("write", s, c, out, <<>>, "")
-    /\ UNCHANGED <<cfg, ch, stopped, oorder, dfr>>
+       /\ IF cl /\ r.rc
+            THEN /\ ch' = SetChan(s, c, Finalize(r1, FALSE))
+                 /\ dfr' = [dfr EXCEPT ![s] = Fire(@, Range(r.dq), "closed")]
+                 /\ oorder' = [oorder EXCEPT ![s] = Without(@, c)]
+                 /\ last' = CallLast("write", s, c, out, CloseCb(s, c), "")
+            ELSE /\ ch' = IF cl THEN SetChan(s, c, r1) ELSE ch
+                 /\ last' = CallLast("write", s, c, out, <<>>, "")
+                 /\ UNCHANGED <<dfr, oorder>>
+    /\ UNCHANGED <<cfg, stopped>>
 
 (* channel.loseConnection() (nothing buffered) -> conn.sendClose(channel): CLOSE is sent once; if the peer's CLOSE
    was already received the channel is closed now *)
@@ -218,7 +230,8 @@ Close(s, c) ==
     /\ Exists(s, c)
     /\ LET r == C(s, c)  act == r.st = "open" /\ ~r.lc
            out == IF act THEN <<Msg("CLOSE", r.rid, 0, "")>> ELSE <<>>
-           r1 == [r EXCEPT !.lc = TRUE, !.nsc = @ + 1] IN
+           r0 == [r EXCEPT !.closing = TRUE]
+           r1 == [r0 EXCEPT !.lc = TRUE, !.nsc = @ + 1] IN
        /\ q' = Send(s, out)
        /\ cnt' = IF act THEN [cnt EXCEPT !.close = @ + 1] ELSE cnt
        /\ IF act /\ r.rc
@@ -226,7 +239,7 @@ Close(s, c) ==
                  /\ dfr' = [dfr EXCEPT ![s] = Fire(@, Range(r.dq), "closed")]
                  /\ oorder' = [oorder EXCEPT ![s] = Without(@, c)]
                  /\ last' = CallLast("close", s, c, out, CloseCb(s, c), "")
-            ELSE /\ ch' = IF act THEN SetChan(s, c, r1) ELSE ch
+            ELSE /\ ch' = SetChan(s, c, IF act THEN r1 ELSE r0)
                  /\ last' = CallLast("close", s, c, out, <<>>, IF NoRemote(s, c) THEN "KeyError" ELSE "")
                  /\ UNCHANGED <<dfr, oorder>>
     /\ UNCHANGED <<cfg, stopped>>
@@ -287,7 +300,7 @@ Stop(s) ==
     /\ last' = [e |-> "stop", s |-> s, sent |-> <<>>, cb |-> StopCb(s, oorder[s]) \o FailCb(s, Len(ch[s])), exc |-> ""]
     /\ UNCHANGED <<cfg, q, cnt>>
 
-Ids(s) == 0..(Len(ch[s]) - 1)
+Ids(s) == {c \in 0..Len(ch[s]) : c < Len(ch[s])}
 Next == \/ \E s \in S, k \in {"ok", "bad"} : Open(s, k)
         \/ \E s \in S : DeliverOpen(s)
         \/ \E s \in S : DeliverConf(s)
@@ -305,7 +318,7 @@ Next == \/ \E s \in S, k \in {"ok", "bad"} : Open(s, k)
 
 -----------------------------------------------------------------------------
 (* What a user relies on *)
-Chans(s) == 0..(Len(ch[s]) - 1)
+Chans(s) == {c \in 0..Len(ch[s]) : c < Len(ch[s])}
 
 \* every channel object sees exactly one of channelOpen / openFailed once its open is decided, never both, never twice;
 \* closed() at most once and only for a channel that was opened
@@ -385,11 +398,12 @@ Inv == OpenOutcomeOnce /\ ClosedAfterHandshake /\ MapsAgree /\ OpenOrder /\ Head
    counters only grow; no public call raises except the documented KeyError of a never-opened channel. *)
 ChanCb(x) == x[1] \notin {"d_ok", "d_fail", "d_closed"}
 StepOK ==
-    /\ \A i \in 1..Len(last'.cb) : LET x == last'.cb[i] IN
-          IF ChanCb(x)
-            THEN \/ ~Exists(last'.s, x[2])                                     \* created by this step
-                 \/ C(last'.s, x[2]).st \in {"opening", "open"}
-            ELSE x[2] \in Pending(last'.s)
+    /\ \E a \in S : /\ a = last'.s
+                    /\ \A i \in 1..Len(last'.cb) : \E x \in {last'.cb[i]} :
+                          IF ChanCb(x)
+                            THEN IF x[2] >= Len(ch[a]) THEN TRUE                         \* created by this step
+                                 ELSE ch[a][x[2] + 1].st \in {"opening", "open"}
+                            ELSE x[2] \in Pending(a)
     /\ \A s \in S : \A n \in 1..Len(dfr[s]) : dfr[s][n].st # "pending" => dfr'[s][n] = dfr[s][n]
     /\ \A s \in S : /\ Len(ch'[s]) >= Len(ch[s])
                     /\ \A c \in Chans(s) : LET r == C(s, c)  r2 == ch'[s][c + 1] IN
@@ -397,6 +411,6 @@ StepOK ==
                           /\ r.st \in {"failed", "closed"} => r2.st = r.st
                     /\ (stopped[s] => stopped'[s])
     /\ last'.e = "deliver" => last'.exc = ""
-    /\ last'.exc # "" => (last'.exc = "KeyError" /\ last'.sent = <<>> /\ last'.cb = <<>> /\ ch' = ch)
+    /\ last'.exc # "" => (last'.exc = "KeyError" /\ last'.sent = <<>> /\ last'.cb = <<>> /\ q' = q /\ dfr' = dfr)
     /\ \A i \in 1..Len(last'.sent) : last'.sent[i].ch >= 0
 =============================================================================
